@@ -16,8 +16,10 @@
 
   NOT modelled: lexing (`#` comments, strip, split, `str(weight)`, `Fraction()/Decimal()/int()` of a multiplier,
   `str.isdigit` / `int()` of a header value — a value comes with these classifications, the regular expression and
-  `str.lower` behind `_name_to_initials` — a candidate comes with its initials) and the ordered ballot format (`order=`),
-  which answers `Err.other "unmodelled"`.
+  `str.lower` behind `_name_to_initials` — a candidate comes with its initials), `item.isdecimal()` / `int(item)` of an
+  item of an ordered ballot line — the classification `cls` of item texts is a parameter of the reader.
+
+  The ordered ballot format (`order=` header line, `_load_ordered_votes`) IS modelled.
 
   BLT mode IS modelled: the writer without a system (`method=blt`, `ballots=blt`, then `blt.dump_lines`), the reader
   after a `ballots=blt` line (`blt.load_lines` on the rest of the file, VotelibModel.Blt; seats, candidates and — when the
@@ -142,9 +144,12 @@ inductive Sys where
                                             -- VotingSystem(name, evaluator); name None, or its text and whether the
                                             -- format can carry it (no '#', line break, edge whitespace: `_header_text`)
   | fixed (n : Nat) (e : Sys)               -- FixedSeatCount(evaluator, n)
-  | tie (main : Sys) (tb : Tb)              -- TieBreaking(main, tiebreaker)
+  | tie (main : Sys) (tb : Tb) (defaultSubsetter : Bool := true)
+                                            -- TieBreaking(main, tiebreaker, subsetter); is the subsetter the default one?
   | tv (retainerNone elimLast gregory : Bool) (quotaName : Option String) (mandatory : Bool)
-                                            -- TransferableVoteSelector / Distributor; quotaName = quota_function.__name__ if any
+       (acceptEqual : Bool := true) (selector : Bool := true)
+                                            -- TransferableVoteSelector (selector) / Distributor; quotaName =
+                                            -- quota_function.__name__ if any; accept_quota_equal
   | other                                   -- any other evaluator: nothing is written
 deriving DecidableEq, Repr, Inhabited
 
@@ -177,9 +182,12 @@ def dumpSys : Sys → Except Err (List (String × SVal))
       let r ← dumpSys e
       pure (("title", name) :: r)
   | .fixed n e => do let r ← dumpSys e; pure (("seats", SVal.num n) :: r)
-  | .tie m tb => do let r ← dumpSys m; let t ← dumpTb tb; pure (r ++ t)
-  | .tv a b c q m => dumpTv a b c q m
+  | .tie m tb _ => do let r ← dumpSys m; let t ← dumpTb tb; pure (r ++ t)       -- the subsetter is not looked at
+  | .tv a b c q m _ _ => dumpTv a b c q m            -- nor accept_quota_equal; a Distributor is written as a Selector (warning)
   | .other => pure []
+
+/-- the `seats=` line for the `n_seats` argument of `dump_lines` (L74-75) -/
+def argLines (arg : Option Nat) : List (String × SVal) := match arg with | some n => [("seats", SVal.num n)] | none => []
 
 /-- `dump_lines` with a system (L72-76); `namesOK`: every candidate name is non-empty and can be carried
     (`_header_text(name, allow_empty=False)`); a negative ballot weight is refused (`_dump_ballots` L173-174, since
@@ -188,7 +196,7 @@ def dumpSys : Sys → Except Err (List (String × SVal))
 def dumpStv (sys : Sys) (seatsArg : Option Nat) (namesOK : Bool) (d : Doc Weight) :
     Except Err (List HLine × List VLine) := do
   let sl ← dumpSys sys
-  let arg := (match seatsArg with | some n => [("seats", SVal.num n)] | none => [])
+  let arg := argLines seatsArg
   if !namesOK then throw notSupported
   if d.ballots.any (fun b => decide (b.2.val < 0)) then throw notSupported
   let nicks := candidateNicks (d.cands.map (·.2.2))
@@ -203,8 +211,6 @@ def dumpStvBlt (d : Blt.Doc Blt.Weight) : Except Err (List HLine × List Blt.Lin
   pure ([HLine.other "method" (SVal.word "blt"), HLine.ballotsBlt], ls)
 
 /-! ### reader -/
-
-def unmodelled : Err := Err.other "unmodelled"
 
 /-- `nicks[nick] = cand` on an insertion-ordered dict -/
 def nickSet : List (String × Nat) → String → Nat → List (String × Nat)
@@ -321,19 +327,43 @@ def createSystem (c : Comps) : Except Err Summary := do
   let seats ← sysSeats c
   pure { title := sysTitle c, seats := seats, quota := quota, mandatory := !blt && mandatory, random := random }
 
-/-- `_load_system` (L252-290): candidates, nick table, system settings, ballot count (`none`: `ballots=blt`) -/
-def loadHeader : List HLine → List (String × Bool) → List (String × Nat) → Comps →
-    Except Err (List (String × Bool) × List (String × Nat) × Summary × Option Nat)
-  | [], _, _, _ => throw Err.parseError                                     -- L290: end of file before ballot data
-  | .blank :: rest, cs, nk, sc => loadHeader rest cs nk sc
-  | .invalid :: _, _, _, _ => throw Err.parseError                          -- L302
-  | .cand w nick name :: rest, cs, nk, sc => loadHeader rest (cs ++ [(name, w)]) (nickSet nk nick cs.length) sc
-  | .candBad :: _, _, _, _ => throw Err.parseError                       -- candidate line without a name
-  | .ballotsN n :: _, cs, nk, sc => do let sys ← createSystem sc; pure (cs, nk, sys, some n)      -- L271-274
-  | .ballotsBlt :: _, cs, nk, sc => do let sys ← createSystem sc; pure (cs, nk, sys, none)
-  | .ballotsBad :: _, _, _, sc => do let _ ← createSystem sc; throw Err.parseError   -- L272-273: the system is built first
-  | .order _ :: _, _, _, _ => throw unmodelled
-  | .other k v :: rest, cs, nk, sc => do let sc' ← compsAdd sc k v; loadHeader rest cs nk sc'
+/-- `{nick: nicks[nick] for nick in nick_orders}` (L276-282): the nick table in the order of the `order=` line (a
+    repeated nickname keeps its first place); an unknown nickname is refused -/
+def reorderNicks (nk : List (String × Nat)) : List String → List (String × Nat) → Except Err (List (String × Nat))
+  | [], acc => pure acc
+  | s :: t, acc =>
+      match nk.lookup s with
+      | some i => reorderNicks nk t (nickSet acc s i)
+      | none => throw Err.parseError
+
+/-- the `ballots=` branch of `_load_system` before the system is built: with a non-empty `order=` the nick table is
+    reordered and the ballots are in the ordered format -/
+def applyOrder (nk : List (String × Nat)) (ord : List String) : Except Err (List (String × Nat) × Bool) :=
+  if ord.isEmpty then pure (nk, false) else do let nk' ← reorderNicks nk ord []; pure (nk', true)
+
+/-- `_load_system` (L252-290): candidates, nick table, system settings, ballot count (`none`: `ballots=blt`), and
+    whether the ballots are in the ordered format; `ord` = the nicknames of the last `order=` line so far -/
+def loadHeader : List HLine → List (String × Bool) → List (String × Nat) → Comps → List String →
+    Except Err (List (String × Bool) × List (String × Nat) × Summary × Option Nat × Bool)
+  | [], _, _, _, _ => throw Err.parseError                                     -- L290: end of file before ballot data
+  | .blank :: rest, cs, nk, sc, ord => loadHeader rest cs nk sc ord
+  | .invalid :: _, _, _, _, _ => throw Err.parseError                          -- L302
+  | .cand w nick name :: rest, cs, nk, sc, ord => loadHeader rest (cs ++ [(name, w)]) (nickSet nk nick cs.length) sc ord
+  | .candBad :: _, _, _, _, _ => throw Err.parseError                       -- candidate line without a name
+  | .ballotsN n :: _, cs, nk, sc, ord => do                                 -- L271-286: order first, then the system
+      let (nk', o) ← applyOrder nk ord
+      let sys ← createSystem sc
+      pure (cs, nk', sys, some n, o)
+  | .ballotsBlt :: _, cs, nk, sc, ord => do
+      let (nk', o) ← applyOrder nk ord
+      let sys ← createSystem sc
+      pure (cs, nk', sys, none, o)
+  | .ballotsBad :: _, _, nk, sc, ord => do      -- the order and the system are dealt with first
+      let _ ← applyOrder nk ord
+      let _ ← createSystem sc
+      throw Err.parseError
+  | .order l :: rest, cs, nk, sc, _ => loadHeader rest cs nk sc l                 -- L287-288 `nick_orders = value.split()`
+  | .other k v :: rest, cs, nk, sc, ord => do let sc' ← compsAdd sc k v; loadHeader rest cs nk sc' ord
 
 /-- `votes[vote] = add_weights(votes[vote], mult)` on a `defaultdict(int)` (io/core.py `add_weights`, since 134a849):
     the first multiplier as it is, every further one added exactly (Decimal through Fraction) — here: Rat -/
@@ -364,6 +394,57 @@ def loadVotes (nk : List (String × Nat)) (n : Nat) : List VLine → Nat → Lis
           let b ← lookupNicks nk (s :: more)
           loadVotes nk n rest (i + 1) (addVote acc b 1)
 
+/-! ### ordered ballot format (`_load_ordered_votes`) -/
+
+/-- an item of an ordered ballot line as L401-406 look at it: `item.isdecimal()` (with `int(item)`), the item `-`,
+    anything else -/
+inductive OItem where
+  | rank (n : Nat)
+  | dash
+  | bad
+deriving DecidableEq, Repr, Inhabited
+
+/-- the item loop (L401-406): item number `i` ranks the `i`-th candidate of the (reordered) nick table; a number
+    beyond the table and anything but `-` is refused -/
+def ordItems (cls : String → OItem) (cands : List Nat) : Nat → List String → Except Err (List (Nat × Nat))
+  | _, [] => pure []
+  | i, s :: t =>
+      match cls s, cands[i]? with
+      | .rank r, some c => do let rest ← ordItems cls cands (i + 1) t; pure ((c, r) :: rest)
+      | .dash, _ => ordItems cls cands (i + 1) t
+      | _, _ => throw Err.parseError
+
+/-- `cand_order.sort(key=itemgetter(1))`: stable -/
+def insertRank (x : Nat × Nat) : List (Nat × Nat) → List (Nat × Nat)
+  | [] => [x]
+  | y :: ys => if x.2 < y.2 then x :: y :: ys else y :: insertRank x ys
+def sortRank : List (Nat × Nat) → List (Nat × Nat)
+  | [] => []
+  | x :: xs => insertRank x (sortRank xs)
+
+/-- one ordered ballot line (L399-412): the ranks given must be exactly 1..k -/
+def ordVote (cls : String → OItem) (cands : List Nat) (items : List String) : Except Err (List Nat) := do
+  let co ← ordItems cls cands 0 items
+  let sorted := sortRank co
+  if sorted.map (·.2) = (List.range sorted.length).map (· + 1) then pure (sorted.map (·.1))
+  else throw Err.parseError
+
+/-- `_iter_vote_lines` feeding `_load_ordered_votes` -/
+def loadOrdered (cls : String → OItem) (cands : List Nat) (n : Nat) : List VLine → Nat → List (List Nat × Rat) →
+    Except Err (List (List Nat × Rat))
+  | [], _, _ => throw Err.parseError
+  | .endLine :: _, i, acc => if i ≠ n then throw Err.parseError else pure acc
+  | .blank :: rest, i, acc => loadOrdered cls cands n rest (i + 1) acc
+  | .items first more :: rest, i, acc =>
+      match first with
+      | .mult r => do
+          let b ← ordVote cls cands more
+          loadOrdered cls cands n rest (i + 1) (addVote acc b r)
+      | .multBad => throw Err.parseError
+      | .word s => do
+          let b ← ordVote cls cands (s :: more)
+          loadOrdered cls cands n rest (i + 1) (addVote acc b 1)
+
 /-- BLT mode of `load_lines` (L244-262) once the BLT content is read: the title of the content is used when the header
     has none and the content's is not empty, its seat count replaces a `seats=` line, and — since f06b201 — its
     candidates, which the ballots refer to, replace the header's whenever there are any -/
@@ -376,13 +457,14 @@ def bltMode (cs : List (String × Bool)) (sys : Summary) (d : Blt.Doc Rat) : Doc
               seats := some (d.nSeats : Int) })
 
 /-- `load_lines` (L237-266) on a text split at its first `ballots=` line: the rest of the file as the own (unordered)
-    ballot format sees it (`votes`) and as the BLT reader sees it (`blt`); only one of the two views is looked at -/
-def loadStv (hdr : List HLine) (votes : List VLine) (blt : List Blt.Line) :
+    ballot formats see it (`votes`; `cls` classifies the items of an ordered line) and as the BLT reader sees it
+    (`blt`); only one of the views is looked at -/
+def loadStv (cls : String → OItem) (hdr : List HLine) (votes : List VLine) (blt : List Blt.Line) :
     Except Err (Doc Rat × List (String × Bool) × Summary) := do
-  let (cs, nk, sys, n?) ← loadHeader hdr [] [] {}
+  let (cs, nk, sys, n?, ordered) ← loadHeader hdr [] [] {} []
   match n? with
   | some n => do
-      let bs ← loadVotes nk n votes 0 []
+      let bs ← (if ordered then loadOrdered cls (nk.map (·.2)) n votes 0 [] else loadVotes nk n votes 0 [])
       pure ({ cands := cs.map (fun c => (c.1, c.2, "")), ballots := bs }, cs, sys)
   | none =>
       match Blt.loadBlt blt with
@@ -428,5 +510,127 @@ def wfSys (d : SysDoc) : Bool :=
 def SysDoc.summary (d : SysDoc) : Summary :=
   { title := d.title.map (·.text), seats := (d.seatsFixed.orElse (fun _ => d.seatsArg)).map (fun n => (n : Int)),
     quota := Quota.name d.quota, mandatory := d.mandatory, random := d.random }
+
+/-! ### which systems the header carries: refused, unreadable, silently changed, complete
+
+  `_dump_system` walks a chain of wrappers (VotingSystem, FixedSeatCount, TieBreaking) down to a transferable-vote
+  evaluator — or to anything else, for which it writes NOTHING.  The functions below read off a tree, structurally, what
+  the writer does with it; the theorems (VotelibProofs.Lemmas.StvSys) connect them with `dumpSys` and `createSystem`. -/
+
+/-- `_dump_tiebreaker` raises: a converter outside RANKED_TO_SIMPLE, an evaluator it does not know -/
+def tbRefused : Tb → Bool
+  | .pre ok inner => !ok || tbRefused inner
+  | .unsupported => true
+  | _ => false
+
+/-- the `random=` setting a tie-breaker is written as; `none`: nothing is written (a Sortitor without seed) -/
+def tbMeaning : Tb → Option (Option Nat)
+  | .pre _ inner => tbMeaning inner
+  | .order => some none
+  | .sortitor (some n) => some (some n)
+  | .sortitor none => none
+  | .unsupported => none
+
+def rndVal : Option Nat → SVal
+  | none => SVal.word "non"
+  | some n => SVal.num n
+
+def tbLines (tb : Tb) : List (String × SVal) := ((tbMeaning tb).toList).map (fun r => ("random", rndVal r))
+
+/-- `_dump_tveval` raises: a retainer, an elimination step other than -1, a transferer other than Gregory, a named
+    quota function other than droop / hare -/
+def tvRefused (retainerNone elimLast gregory : Bool) (q : Option String) : Bool :=
+  !retainerNone || !elimLast || !gregory || (match q with | some n => !(n = "droop" || n = "hare") | none => false)
+
+/-- **refused**: `_dump_system` raises NotSupportedInSTV -/
+def sysRefused : Sys → Bool
+  | .voting none e => sysRefused e
+  | .voting (some (_, ok)) e => !ok || sysRefused e
+  | .fixed _ e => sysRefused e
+  | .tie m tb _ => sysRefused m || tbRefused tb
+  | .tv a b c q _ _ _ => tvRefused a b c q
+  | .other => false
+
+/-- the header lines of a system that is not refused -/
+def linesOf : Sys → List (String × SVal)
+  | .voting none e => linesOf e
+  | .voting (some (t, _)) e => ("title", t) :: linesOf e
+  | .fixed n e => ("seats", SVal.num n) :: linesOf e
+  | .tie m tb _ => linesOf m ++ tbLines tb
+  | .tv _ _ _ q m _ _ =>
+      [("method", SVal.word "BC")] ++ (match q with | some n => [("quota", SVal.word n)] | none => [])
+        ++ (if m then [("quota", SVal.word "mandatory")] else [])
+  | .other => []
+
+def titlesOf : Sys → List SVal
+  | .voting none e => titlesOf e
+  | .voting (some (t, _)) e => t :: titlesOf e
+  | .fixed _ e => titlesOf e
+  | .tie m _ _ => titlesOf m
+  | _ => []
+
+def seatsOf : Sys → List Nat
+  | .voting _ e => seatsOf e
+  | .fixed n e => n :: seatsOf e
+  | .tie m _ _ => seatsOf m
+  | _ => []
+
+/-- the `random=` lines, innermost tie-breaker first -/
+def randomsOf : Sys → List (Option Nat)
+  | .voting _ e => randomsOf e
+  | .fixed _ e => randomsOf e
+  | .tie m tb _ => randomsOf m ++ (tbMeaning tb).toList
+  | _ => []
+
+/-- quota name and mandatory flag of the transferable-vote evaluator at the bottom, if there is one with a named quota -/
+def leafQuota : Sys → Option (String × Bool)
+  | .voting _ e => leafQuota e
+  | .fixed _ e => leafQuota e
+  | .tie m _ _ => leafQuota m
+  | .tv _ _ _ (some q) m _ _ => some (q, m)
+  | _ => none
+
+/-- **readable**: the file written for a system that is not refused is one `_load_system` / `_create_system` accept —
+    no setting twice (two titles; two seat counts, the `n_seats` argument included; two tie-breakers that are both
+    written) and, at the bottom, a transferable-vote evaluator with a named quota (anything else leaves no `method=`
+    line, a quota function without a name no `quota=` line) -/
+def sysReadable (sys : Sys) (arg : Option Nat) : Bool :=
+  decide ((titlesOf sys).length ≤ 1) && decide ((seatsOf sys ++ arg.toList).length ≤ 1)
+    && decide ((randomsOf sys).length ≤ 1) && (leafQuota sys).isSome
+
+/-- **silently changed**: a setting of the system that no header line stands for — a TieBreaking with a subsetter of
+    its own, a Sortitor without seed (the tie-breaker disappears), `accept_quota_equal=False`, a
+    TransferableVoteDistributor (read back as a Selector; the writer warns) -/
+def lossy : Sys → Bool
+  | .voting _ e => lossy e
+  | .fixed _ e => lossy e
+  | .tie m tb dflt => lossy m || !dflt || (tbMeaning tb).isNone
+  | .tv _ _ _ _ _ acceptEqual selector => !acceptEqual || !selector
+  | .other => false
+
+/-- the settings the reader builds a system from, read off the tree -/
+def summaryOf (sys : Sys) (arg : Option Nat) : Summary :=
+  { title := (titlesOf sys).head?.map (·.text),
+    seats := (seatsOf sys ++ arg.toList).head?.map (fun n => (n : Int)),
+    quota := (match leafQuota sys with | some (q, _) => Quota.name q | none => Quota.unknown),
+    mandatory := (match leafQuota sys with | some (_, m) => m | none => false),
+    random := (randomsOf sys).head? }
+
+/-- **written completely**: not refused, readable, nothing lost -/
+def sysComplete (sys : Sys) (arg : Option Nat) : Bool := !sysRefused sys && sysReadable sys arg && !lossy sys
+
+/-- the loaded settings `s` stand for all of the system -/
+def Faithful (sys : Sys) (arg : Option Nat) (s : Summary) : Prop := s = summaryOf sys arg ∧ lossy sys = false
+
+/-- the collected system settings, `syscomps`, of header lines -/
+def collect : List (String × SVal) → Comps → Except Err Comps
+  | [], c => pure c
+  | p :: t, c => do let c' ← compsAdd c p.1 p.2; collect t c'
+
+/-- what `load_lines` makes of the system lines `dump_lines` writes (with the `n_seats` argument) -/
+def reloadSys (sys : Sys) (arg : Option Nat) : Except Err Summary := do
+  let ls ← dumpSys sys
+  let c ← collect (ls ++ argLines arg) {}
+  createSystem c
 
 end VL.StvFile
